@@ -368,6 +368,9 @@ def main() -> int:
     distinct = {json.dumps(c["expect"], sort_keys=True) for c in cases}
     import multiprocessing
 
+    for c in cases[::max(1, len(cases) // 5)]:
+        rep.sample({"cfg": c["cfg"], "external_names": {r: ev(t) for r, t in c["expect"].items()}})
+
     nproc = 12
     chunks = [cases[i * len(cases) // nproc:(i + 1) * len(cases) // nproc] for i in range(nproc)]
     with multiprocessing.get_context("fork").Pool(nproc) as pool:
